@@ -450,7 +450,16 @@ pub fn c15_cursors(input: &str, cfg: &Cfg, cursors: &[u32]) -> Vec<String> {
         if co > out.len() {
             fails.push("c15: reported cursor lies beyond the output".to_string());
         } else if !out.is_char_boundary(co) {
-            fails.push("c15: reported cursor is not on a character boundary".to_string());
+            let toks = lex_offsets(input);
+            let ci = *c_in as usize;
+            let mut place = "beyond the end".to_string();
+            for t in &toks {
+                if ci <= t.end {
+                    place = if ci < t.start + t.ws_len { format!("whitespace before {:?}", t.kind) } else { format!("{:?}", t.kind) };
+                    break;
+                }
+            }
+            fails.push(format!("c15: reported cursor is not on a character boundary (cursor was in {})", place));
         }
         if *c_in as usize > input.len() && co != out.len() {
             fails.push("c15: a cursor beyond the end of the input does not map to the end of the output".to_string());
